@@ -137,7 +137,10 @@ def status_pattern(db, keys, oids):
 def run_case(R, level, op, db, args, label="gen"):
     v1 = level == "v1"
     keys = sorted(db)
-    w = World(level, db)
+    via = tuple(args["via"]) if args.get("via") else None
+    w = World(level, db, via=via)
+    if via:
+        R.mon["clients_switched_from_another_family"] += 1
     w.prime()
     w.seam.budget = 6 if not args.get("prelude") else 400
     c = w.client
@@ -540,6 +543,8 @@ def run(R):
         if level == "v1" and op in ("bulkget", "bulkfault"):
             level = "v2c"
         args = gen_args(rng, op, db, level)
+        if rng.random() < 0.2:
+            args["via"] = ("configure", rng.choice([lv for lv in ("v1", "v2c", "v3-noauth", "v3-md5") if lv != level]))
         run_case(R, level, op, db, args)
     if R.shard == 0:
         db = {(1, 3, 6, 1, 2, 1, 1, 1, 0): ("str", b"x"), (1, 3, 6, 1, 2, 1, 1, 2, 0): ("int", 2)}
